@@ -20,7 +20,7 @@ RULE = ('Cases: files of 2..8 samples (C07 sample styles, so that some k-mers ar
         'disappears or at least two non-adjacent columns are removed; distinct = distinct (k, mode, samples, subset, route).')
 ASSUMPTIONS = ['sample names are [A-Za-z0-9_]+ ; a share of names end in .fa/.fasta to exercise name handling',
                'the build of the remaining samples is a run of the same binary (differential); the model is independent']
-REQUIRED = {t: ['route:cli', 'route:file', 'route:file-no-trailing-newline', 'route:file-blank-lines', 'inplace', 'with-o',
+REQUIRED = {t: ['route:cli', 'names_starting_with_a_comment_or_marker_character', 'route:file', 'route:file-no-trailing-newline', 'route:file-blank-lines', 'inplace', 'with-o',
                 'refuse:unknown', 'refuse:all', 'refuse:all-with-repeat', 'kmers_removed', 'nonadjacent_deletions', 'width64', 'width128', 'pretreated_files',
                 'stored_rows_compared', 'samples_with_a_private_row_coded_N', 'names_differing_in_case_only', 'refuse:unknown-case', 'names_files_over_8KiB', 'deletions_leaving_255..257_samples', 'rows_present_in_exactly_256_remaining_samples', 'unwritable_output_refused', 'with-o-naming-the-input-file', 'refusals_with-o-naming-the-input-file', 'files_of_4096+_rows']
             for t in ('quick', 'thorough')}
@@ -97,6 +97,10 @@ def run_case(desc, ctx):
         nm = 'n%d' % i if not desc.get('crowd') else 'isolate_%03d_%s' % (i, 'x' * 48)
         if odd_names and rng.random() < 0.5:
             nm += rng.choice(['.fa', '.fasta', '_x.fastq', ',1', ',b.fa'])
+        if odd_names and not desc.get('crowd') and rng.random() < 0.4:
+            # names that begin with what other formats use for comments, headers or markers: a name is a name
+            nm = rng.choice(['#', '#', ';', '@', '>', '%', '!', '//', '=']) + nm
+            res.count('names_starting_with_a_comment_or_marker_character')
         names.append(nm)
     if not desc.get('crowd') and ns >= 3 and rng.random() < 0.2:
         # two names that differ in letter case only
